@@ -125,6 +125,8 @@ func runC19(w *World, r *Report) {
 	exhSwitch(w, r, "C19-c", "filesystem/squashfs", "directoryEntry.Mode", "inodeType")
 	c19TypeTests(w, r)
 	c19DosTime(w, r)
+	c19FatFlagBits(w, r)
+	r.Floor("C19-f", r.countRule("C19-f"), 2)
 	r.Floor("C19-d", r.countRule("C19-d"), 8)
 	r.Floor("C19-c", r.countRule("C19-c"), 3)
 	r.Floor("C19-a", r.countRule("C19-a"), 4)
@@ -497,4 +499,149 @@ func keysOf(m map[int64]bool) []int64 {
 	}
 	sort.Slice(out, func(a, b int) bool { return out[a] < out[b] })
 	return out
+}
+
+// c19FatFlagBits (C19-f): the FAT entry encoder builds the attribute byte (11) and the case byte (12) by setting and
+// clearing single bits under the entry's boolean flags. The flags are independent in the decoder (each is one bit test),
+// so every combination must be encodable: the set of values the byte can hold when the encoder returns is closed under
+// bitwise OR. An encoder that sets the bits in mutually exclusive branches loses one flag whenever two are set.
+func c19FatFlagBits(w *World, r *Report) {
+	enc := w.Method("filesystem/fat12", "directoryEntry", "toBytes")
+	name := fnName(enc)
+	type set [4]uint64
+	has := func(s *set, v int) bool { return s[v>>6]&(1<<(uint(v)&63)) != 0 }
+	add := func(s *set, v int) { s[v>>6] |= 1 << (uint(v) & 63) }
+	for _, cellIdx := range []int64{11, 12} {
+		// the cell: IndexAddr(x, const cellIdx) on a locally made byte slice; all such addresses alias
+		isCell := func(v ssa.Value) bool {
+			ia, ok := v.(*ssa.IndexAddr)
+			if !ok {
+				return false
+			}
+			c, isC := constInt(ia.Index)
+			if !isC || c != cellIdx {
+				return false
+			}
+			switch x := stripConv(ia.X).(type) {
+			case *ssa.MakeSlice, *ssa.Alloc:
+				return true
+			case *ssa.Slice: // make([]byte, const) is lowered to new [n]byte + slice
+				_, isAl := x.X.(*ssa.Alloc)
+				return isAl
+			}
+			return false
+		}
+		in := map[*ssa.BasicBlock]*set{}
+		entry := &set{}
+		add(entry, 0)
+		in[enc.Blocks[0]] = entry
+		work := []*ssa.BasicBlock{enc.Blocks[0]}
+		nStores := 0
+		var final set
+		for iter := 0; len(work) > 0 && iter < 20000; iter++ {
+			b := work[len(work)-1]
+			work = work[:len(work)-1]
+			cur := *in[b]
+			for _, ins := range b.Instrs {
+				st, ok := ins.(*ssa.Store)
+				if !ok || !isCell(st.Addr) {
+					continue
+				}
+				nStores++
+				var next set
+				apply := func(f func(int) int) {
+					for v := 0; v < 256; v++ {
+						if has(&cur, v) {
+							add(&next, f(v)&0xff)
+						}
+					}
+				}
+				switch x := stripConv(st.Val).(type) {
+				case *ssa.Const:
+					c, _ := constInt(x)
+					add(&next, int(c)&0xff)
+				case *ssa.BinOp:
+					c, isC := constInt(x.Y)
+					ld, isLd := stripConv(x.X).(*ssa.UnOp)
+					if isC && isLd && isCell(ld.X) {
+						switch x.Op {
+						case token.OR:
+							apply(func(v int) int { return v | int(c) })
+						case token.AND:
+							apply(func(v int) int { return v & int(c) })
+						case token.AND_NOT:
+							apply(func(v int) int { return v &^ int(c) })
+						case token.XOR:
+							apply(func(v int) int { return v ^ int(c) })
+						default:
+							next = set{^uint64(0), ^uint64(0), ^uint64(0), ^uint64(0)}
+						}
+					} else {
+						next = set{^uint64(0), ^uint64(0), ^uint64(0), ^uint64(0)}
+					}
+				default:
+					next = set{^uint64(0), ^uint64(0), ^uint64(0), ^uint64(0)}
+				}
+				cur = next
+			}
+			if _, isRet := lastInstr(b).(*ssa.Return); isRet {
+				for k := range final {
+					final[k] |= cur[k]
+				}
+			}
+			for _, sb := range b.Succs {
+				old := in[sb]
+				if old == nil {
+					c := cur
+					in[sb] = &c
+					work = append(work, sb)
+					continue
+				}
+				changed := false
+				for k := range old {
+					if n := old[k] | cur[k]; n != old[k] {
+						old[k] = n
+						changed = true
+					}
+				}
+				if changed {
+					work = append(work, sb)
+				}
+			}
+		}
+		if nStores == 0 {
+			r.Undecided("C19-f", name, fmt.Sprintf("flag byte %d", cellIdx), w.relFile(enc.Pos()), "no single-bit updates of this byte found in the encoder")
+			continue
+		}
+		missing := ""
+		count := 0
+		// the flags a caller can set on any entry (read-only, hidden, system, archive; the two case bits): each must be
+		// combinable with every other encodable value. The kind bits (volume label, directory) may exclude each other.
+		settable := map[int64]int{11: 0x27, 12: 0x18}[cellIdx]
+		for a := 0; a < 256; a++ {
+			if has(&final, a) {
+				count++
+			}
+		}
+		for t := 1; t < 256 && missing == ""; t <<= 1 {
+			if settable&t == 0 || !has(&final, t) && func() bool {
+				for v := 0; v < 256; v++ {
+					if has(&final, v) && v&t != 0 {
+						return false
+					}
+				}
+				return true
+			}() {
+				continue
+			}
+			for a := 0; a < 256; a++ {
+				if has(&final, a) && !has(&final, a|t) {
+					missing = fmt.Sprintf("0x%02x can be written and the flag 0x%02x can be written, 0x%02x cannot", a, t, a|t)
+					break
+				}
+			}
+		}
+		r.Check(missing == "", "C19-f", name, fmt.Sprintf("flag bits of byte %d are set independently", cellIdx), w.relFile(enc.Pos()), fmt.Sprintf("%d encodable values, closed under OR", count),
+			"the encoder cannot write every combination of the flag bits of this byte ("+missing+"): the decoder reads each flag as an independent bit, so an entry that has both flags set loses one of them when the directory is written (e.g. the archive bit of a directory)")
+	}
 }
